@@ -56,6 +56,9 @@ func (m *mirror) bump(k, except string) {
 		if v != except && s[k] {
 			delete(s, k)
 			s[""] = true
+			if len(s) == 1 {
+				delete(m.P, v) // {nobody} is the same as absent
+			}
 		}
 	}
 }
